@@ -301,15 +301,17 @@ class PDFContentParser(PSStackParser[Union[PSKeyword, PDFStream]]):
         i = 0
         data = b""
         while i <= len(target):
-            try:
-                self.fillbuf()
-            except PSEOF:
-                if i != len(target):
-                    raise
-                # The end marker is the last thing in the content stream:
-                # end of data delimits it like white space does.
+            if (
+                i == len(target)
+                and self.charpos >= len(self.buf)
+                and self.fp.tell() >= self.fp.getbuffer().nbytes
+            ):
+                # The end marker is the last thing in its content stream (the
+                # last one or any other of a /Contents array): the end of a
+                # stream delimits it like white space does.
                 data += b" "
                 break
+            self.fillbuf()
             if i:
                 ci = self.buf[self.charpos]
                 c = bytes((ci,))
